@@ -205,6 +205,25 @@ func CompStream(res *Result, d *Driver, src string, inputs []string, input inter
 			}
 		}
 		res.Count("comp", strings.Join(inputs, ",")+"|"+src, len(impl) > 200)
+		if f[0] == "ok" {
+			// the real compiler's output IS the model's here: is the program one the universal theorem
+			// compile_verifies / compiled_never_faults speaks about (its three size hypotheses, evaluated)?
+			if line, ok := CompModelLine(src, inputs); ok {
+				ans, err := d.Ask(strings.Replace(line, "(compile ", "(compilebounds ", 1))
+				if err != nil {
+					return err
+				}
+				switch ans {
+				case "bounds 1":
+					res.Dist("comp-covered-by-compile_verifies")
+				case "bounds 0":
+					// legal: a program beyond 65536 constants / globals (the theorem does not speak about it)
+					res.Dist("comp-outside-compile_verifies-size-hypotheses")
+				default:
+					res.Disagree(Disagreement{Stream: "comp-bounds", Input: input, Model: ans, Impl: "the model compiled the program a moment ago"})
+				}
+			}
+		}
 	case "differ":
 		clip := func(s string) string {
 			if len(s) > 1200 {
